@@ -24,6 +24,9 @@ func replay(c *vlib.Ctx) {
 			Type     string `json:"type"`
 			BytesHex string `json:"bytes_hex"`
 			Abstract any    `json:"abstract"`
+			Limit    *int64 `json:"limit"`
+			Accepts  bool   `json:"model_accepts"`
+			Place    string `json:"place"`
 		} `json:"case"`
 	}
 	if err := json.Unmarshal(raw, &f); err != nil {
@@ -44,6 +47,15 @@ func replay(c *vlib.Ctx) {
 	c.Rule("replay of one saved case")
 	if strings.HasPrefix(f.Key, "specified-encoding-") {
 		k.caseA(f.Case.Type, f.Case.Abstract, bs)
+		c.Count(1, 1)
+		c.Finish()
+	}
+	if f.Case.Limit != nil && (strings.Contains(f.Key, "-under-limit") || strings.HasPrefix(f.Key, "encoding-accepted-beyond-limit:")) {
+		var want any
+		if f.Case.Abstract != nil && *f.Case.Limit == int64(len(bs)) {
+			want = stripEmpty(f.Case.Abstract)
+		}
+		k.underLimit(t, bs, *f.Case.Limit, f.Case.Accepts, f.Case.Place, want, nil)
 		c.Count(1, 1)
 		c.Finish()
 	}
